@@ -30,6 +30,8 @@ pub struct HeapReport<I> {
     pub drained: Vec<I>,
     /// "ok" unless draining failed too
     pub drain_outcome: &'static str,
+    /// comparisons made by the pushes and the `n` pops (the draining afterwards not counted)
+    pub main_cmps: usize,
 }
 
 /// The body of `XSequence::n_largest`: push every item, pop `n` times; afterwards the heap is drained
@@ -42,7 +44,9 @@ pub fn heap_run<I, W, R, T>(
     rt: RTCell<W, R, T>,
 ) -> HeapReport<I> {
     let cap = items.len();
+    let cmps = std::cell::Cell::new(0usize);
     let mut heap = TryHeap::with_capacity(cap, |a: &I, b: &I| -> XResult<bool, W, R, T> {
+        cmps.set(cmps.get() + 1);
         match is_le(a, b) {
             Ok(b) => Ok(Ok(b)),
             Err(false) => Err(RuntimeViolation::MaximumSearch),
@@ -84,6 +88,7 @@ pub fn heap_run<I, W, R, T>(
         }
     }
     let len_after = heap.len();
+    let main_cmps = cmps.get();
     let mut drained = Vec::new();
     let mut drain_outcome = "ok";
     loop {
@@ -103,6 +108,7 @@ pub fn heap_run<I, W, R, T>(
         len_after,
         drained,
         drain_outcome,
+        main_cmps,
     }
 }
 
